@@ -131,9 +131,49 @@ theorem straggler_drained (hN : 0 < cfg.N) (h : Reach cfg s) (h0 : s.senders = 0
   rw [hk, hi.c.len, List.take_length] at this
   exact this
 
-/-- `sender_count = 0` is final and freezes the published sequence: no step publishes, clones or
-resurrects a sender afterwards — so "drained" stays true and `Disconnected` is never followed by a value. -/
-theorem no_senders_stable (hN : 0 < cfg.N) (h : Reach cfg s) (h0 : s.senders = 0) {a : Nat} {l : Label}
+/-- Intended (C04: "a receiver that has observed Disconnected never obtains a value afterwards"):
+`sender_count = 0` is final and freezes the published sequence. -/
+def no_senders_stable_statement (cfg : Cfg) : Prop :=
+  ∀ s s' a l, Reach cfg s → s.senders = 0 → step cfg s a l = some s' → s'.senders = 0 ∧ s'.sent = s.sent
+
+/-- **F3 (known finding, closed handle accepted).** `Sender::clone` works on a closed handle and
+re-increments `sender_count`: handle 0 closes (count 1 → 0, a receiver may now observe
+`Disconnected`), is cloned (count 0 → 1), and the clone can publish.  Replay:
+`P 0 close s0 ; try_recv r0 ; clone s0 s1 ; send s1 7 ; try_recv r0` on `mpsc_u` / `mpmc_u`
+(`chanh run`: `err:disconnected` … `ok:7`). -/
+theorem no_senders_stable_fails_F3 :
+    (run {} init [(0, .pClose), (0, .pDropDec)]).map (fun s => s.senders) = some 0 ∧
+    (run {} init [(0, .pClose), (0, .pDropDec), (0, .pClone 1)]).map (fun s => s.senders) = some 1 := by
+  decide
+
+theorem no_senders_stable_statement_false : ¬ no_senders_stable_statement {} := by
+  intro hst
+  have hf := no_senders_stable_fails_F3
+  cases h1 : run {} init [(0, .pClose), (0, .pDropDec)] with
+  | none => exact absurd h1 (by decide)
+  | some s1 =>
+    have hr1 : Reach {} s1 := reach_run _ _ _ Reach.init h1
+    have hs1 : s1.senders = 0 := by
+      have := hf.1; rw [h1] at this; simpa using this
+    have happ : run {} init [(0, .pClose), (0, .pDropDec), (0, .pClone 1)] = run {} s1 [(0, .pClone 1)] := by
+      have := run_append {} init [(0, .pClose), (0, .pDropDec)] [(0, .pClone 1)]
+      rw [h1] at this; simpa using this
+    have hone : run {} s1 [(0, .pClone 1)] = step {} s1 0 (.pClone 1) := by
+      simp only [run]; cases step {} s1 0 (.pClone 1) <;> rfl
+    have h3 := hf.2
+    rw [happ, hone] at h3
+    cases h2 : step {} s1 0 (.pClone 1) with
+    | none => rw [h2] at h3; simp at h3
+    | some s2 =>
+      rw [h2] at h3
+      have := (hst s1 s2 0 (.pClone 1) hr1 hs1 h2).1
+      simp at h3; omega
+
+/-- What holds: unless a closed handle is cloned (F3), `sender_count = 0` is final and freezes the
+published sequence - no step publishes or resurrects a sender afterwards, so "drained" stays true and
+`Disconnected` is never followed by a value. -/
+theorem no_senders_stable_partial (hN : 0 < cfg.N) (h : Reach cfg s) (h0 : s.senders = 0) {a : Nat} {l : Label}
+    (hcl : ∀ h', l ≠ .pClone h')
     (hs : step cfg s a l = some s') : s'.senders = 0 ∧ s'.sent = s.sent := by
   have hi := inv_reach hN h
   have hc := hi.h.cnt
@@ -160,7 +200,7 @@ theorem no_senders_stable (hN : 0 < cfg.N) (h : Reach cfg s) (h0 : s.senders = 0
   case pLink => unfold stepPLink at hs; rw [hidle a] at hs; simp at hs
   case pClose => unfold stepPClose at hs; split at hs <;> simp at hs; rename_i hc; exact absurd hc.1 (hdead a)
   case pDropDec => unfold stepPDropDec at hs; rw [hidle a] at hs; simp at hs
-  case pClone h' => unfold stepPClone at hs; split at hs <;> simp at hs; rename_i hc; exact absurd hc.1 (hdead a)
+  case pClone h' => exact absurd rfl (hcl h')
   case cPopLoad =>
     unfold stepCPopLoad leaveNode at hs
     repeat' split at hs
